@@ -4,9 +4,9 @@ namespace Mieru.Driver.TamperUdp
 open Mieru Mieru.Driver Mieru.Tamper Mieru.Driver.Tamper
 
 /-- content digest used on both sides of the comparison: length and 64-bit FNV-1a -/
-def fnv64 (b : Bytes) : Nat :=
-  b.foldl (fun h x => ((h ^^^ x.toNat) * 1099511628211) % 18446744073709551616) 14695981039346656037
-def digD (p : Bytes) : Nat := p.length * 18446744073709551616 + fnv64 p
+def fnv64 (b : Bytes) : UInt64 :=
+  b.foldl (fun h x => (h ^^^ x.toUInt64) * 1099511628211) 14695981039346656037
+def digD (p : Bytes) : Nat := p.length * 18446744073709551616 + (fnv64 p).toNat
 
 /-- identity fields of the metadata block the driver's codec keeps in `tag` -/
 def idsOf (m : PMd) : Ids :=
@@ -41,8 +41,7 @@ partial def parseItems : List String → List Item → Option (List Item)
 /-- what the receive path did with one datagram: r = rejected by the parser, x = parsed but not handed to
     this session's `inputData`/`inputAck`/`inputClose` (other session, wrong direction, unknown type),
     d = data-bearing segment handed to `inputData`, a = ack, c = close -/
-def verdict (c : RxCfg) (it : Item) : Char :=
-  match parseD (tableOpenD (it.dg.take 24) it.table) packetCodec bodyDecode it.dg with
+def verdict (c : RxCfg) : Option (PMd × Bytes) → Char
   | none => 'r'
   | some (m, _) =>
     let i := idsOf m
@@ -64,9 +63,11 @@ def runSeq (args : List String) : String :=
     | some sid, some items =>
       if ic != "0" && ic != "1" then "bad-op" else
       let c : RxCfg := ⟨ic == "1", sid⟩
+      -- `rxStep … s b` is by definition `rxApply … s (parseD … b)`: the datagram is parsed once
       let step := fun (acc : Arq.St × List Char × List Nat) (it : Item) =>
-        let s' := rxStep (tableOpenD (it.dg.take 24) it.table) packetCodec bodyDecode idsOf digD c acc.1 it.dg
-        (s', verdict c it :: acc.2.1, s'.nextRecv :: acc.2.2)
+        let r := parseD (tableOpenD (it.dg.take 24) it.table) packetCodec bodyDecode it.dg
+        let s' := rxApply idsOf digD c acc.1 r
+        (s', verdict c r :: acc.2.1, s'.nextRecv :: acc.2.2)
       let (s, vs, ns) := items.foldl step (Arq.init, [], [])
       let join := fun (l : List Nat) => if l.isEmpty then "-" else ",".intercalate (l.map toString)
       let vstr := if vs.isEmpty then "-" else String.ofList vs.reverse
